@@ -8,6 +8,7 @@ from .. import credit as CR
 from .. import routes as RT
 from .. import symx as SX
 from ..model import is_self_attr, method_name, strip_doc
+from ..symx import safe_simplify
 from ..report import AnalysisError, Ctx, norm_src
 from . import c09
 
@@ -123,7 +124,7 @@ def check_means(ctx):
     if b is not None:
         try:
             got = sp.sympify(b.replace("ceiling", "ceiling"), locals={"n": sp.Symbol("n", positive=True), "N": sp.Symbol("N", positive=True)})
-            okb = sp.simplify(got - sp.ceiling(sp.Symbol("n", positive=True) / sp.Symbol("N", positive=True))) == 0
+            okb = safe_simplify(got - sp.ceiling(sp.Symbol("n", positive=True) / sp.Symbol("N", positive=True))) == 0
         except Exception:
             okb = False
     ctx.ob("R10-MEAN", okb, c.file, q, "round-robin stage: weight of the old score is ceil(n/N) computed from the current n and N",
